@@ -205,7 +205,8 @@ def plan_for(prop, tier, seed):
             ("spi-contig", True, "dev", lambda ids, rng: G.f_contig_tiny(ids, rng, sample=0.1 if q else 0.8, ifaces=("spi",))),
         ]
     elif prop == "C07":
-        p.mc = [("MC_Parallel", "MC_Parallel", 8, 900, None), (MCP, "MC_Placement_seq_q" if q else "MC_Placement_seq_t", 12, 3000, None)]
+        p.mc = [("MC_Parallel", "MC_Parallel", 8, 900, None), ("MC_ParXfer", "MC_ParXfer", 4, 900, None),
+                (MCP, "MC_Placement_seq_q" if q else "MC_Placement_seq_t", 12, 3000, None)]
         p.rule = ("case = word sequences / repeat counts on the real ParallelInterface (8 and 16 pins) and set_value histories "
                   "with injected data-pin failures; non-trivial: equal consecutive words, an all-equal repeated pixel, or a failure")
         p.nontrivial = lambda sc: True
@@ -236,7 +237,7 @@ def plan_for(prop, tier, seed):
             # the reset step under a failing bus: a failure must not make the reset happen twice
             p.families.append(("reset-faults", True, "dev", lambda ids, rng: {"bases": [b for b in G.fault_bases(ids, rng, q) if b["tag"] == "fault-init"]}))
     elif prop == "C12":
-        p.mc = [("MC_Spi", "MC_Spi", 8, 900, None), ("MC_Parallel", "MC_Parallel", 8, 900, None)]
+        p.mc = [("MC_Spi", "MC_Spi", 8, 900, None), ("MC_Parallel", "MC_Parallel", 8, 900, None), ("MC_ParXfer", "MC_ParXfer", 4, 900, None)]
         p.level = "fault_enumeration"
         p.rule = ("case = (driver operation, model, transport, index k of the failing low-level operation); every k of every SPI "
                   "call in the quick tier and a seeded sample on the parallel transports, every k everywhere in the thorough tier")
